@@ -584,6 +584,12 @@ impl Database {
                     // the same way set_value does, otherwise the next snapshot appends a second
                     // record and a later remove only tombstones one of them
                     let new_value = match db.get(&key.to_string()) {
+                        // No higher version left: refuse like set does
+                        Some(old_value) if old_value.version == i32::MAX => {
+                            return Response::Error {
+                                msg: String::from(INVALID_VERSION_ERROR),
+                            }
+                        }
                         Some(old_value) => Value {
                             value: next.clone(),
                             version: if old_value.is_in_conflict_resolution() {
